@@ -46,7 +46,7 @@ CLAIMS = {
         ref='DESIGN.md section 4/C02'),
     'C03': dict(
         text='Every harness of every family is checked by Kani for reachable panics (unwrap/expect/index/slice/overflow/unreachable) and, where memory-safety checks are on, for invalid pointer use; '
-             'a failing panic-class check in any harness registered here is a C03 violation. Dedicated obligations: get() on whatever insert_raw_rlp/builder stored (u_insert_raw, u_build_raw), '
+             'a failing panic-class check in any harness registered here is a C03 violation (quick tier: a representative subset of 50 harnesses from every family, thorough tier: all 110). Dedicated obligations: get() on whatever insert_raw_rlp/builder stored (u_insert_raw, u_build_raw), '
              'public_key()/NodeId::from after every update step, all typed accessors on arbitrary one-item raw values, decoder and text parser on probe inputs, NodeId parse/deserialise on all inputs in bounds.',
         note='Totality is decided only inside the bounds of the harnesses listed; Debug/Display formatting of records is not executed (formatting machinery does not fit the caps); termination = unwinding assertions.',
         ref='DESIGN.md section 4/C03'),
